@@ -120,21 +120,21 @@ def run(chk, replay=None):
     rng = random.Random(chk.seed)
     chk.assume("TLC/SANY", "sympy.srepr / repr digests identify a model (dictionary order included)", "fork gives clean process-global caches per behaviour")
     # 1. design
-    small = dict(aligns='{"none", "dpd1"}', stables='{"none", "all"}', names='{"R1"}', tags='{"none", "bwff"}')
+    small = dict(aligns='{"none", "dpd1"}', stables='{"none", "all", "bogus"}', names='{"R1"}', tags='{"none", "bwff"}')
     res = tlc.run("Builder_MC", MC_CFG.format(**small, ops=7 if tier == "thorough" else 6, dev="DevNone", props=PROPS), workers=12, coverage=True, fast_start=False, timeout=1500)
     chk.add_tlc("design_exhaustive", res)
     if not res.ok:
         raise Machinery(f"Builder design violates {res.violated}")
     if any(res.coverage.get(a, 0) == 0 for a in ("SetAlign", "SetStable", "SetScalar", "SetCoup", "Assign", "Permutate", "Formulate")):
         raise Machinery(f"vacuous: action coverage {res.coverage}")
-    for dev in ("DevPinned", "DevNoReset"):
+    for dev in ("DevPinned", "DevNoReset", "DevResetAtEnd"):
         r = tlc.run("Builder_MC", MC_CFG.format(**small, ops=6, dev=dev, props="INVARIANT Pure\n"), workers=4, timeout=600)
         if r.ok:
             raise Machinery(f"Builder model insensitive to deviation {dev}")
-    chk.part("deviation_sensitivity", DpdCacheAliasing="violates Pure", NoReset="violates Pure")
+    chk.part("deviation_sensitivity", DpdCacheAliasing="violates Pure", NoReset="violates Pure", ResetAtEnd="violates Pure")
 
     # 2. behaviours
-    big = dict(aligns='{"none", "axis", "dpd1", "dpd2"}', stables='{"none", "all", "one"}', names='{"R1", "R2"}', tags='{"none", "bw", "bwff"}')
+    big = dict(aligns='{"none", "axis", "dpd1", "dpd2"}', stables='{"none", "all", "one", "bogus"}', names='{"R1", "R2"}', tags='{"none", "bw", "bwff"}')
     nsim = 60 if tier == "thorough" else 12
     behs = tlc.simulate("Builder_MC", MC_CFG.format(**big, ops=14, dev="DevNone", props=""), num=nsim, depth=15, seed=chk.seed + 3, with_states=False)
     histories = [spec_actions(b) for b in behs]
@@ -147,12 +147,13 @@ def run(chk, replay=None):
         [dict(base, align="axis", stable="one"), {}, 0],
         [dict(base, stable="all", coup=1), {"R1": "bw"}, 0],
         [dict(base), {}, 1],
+        [dict(base, stable="bogus", coup=1), {"R1": "bwff"}, 0],   # formulate() raises half-way
     ]
     if tier == "thorough":
         alphabet += [[dict(base, align="dpd2", scalar=1), {"R1": "bw", "R2": "bwff"}, 0], [dict(base, align="axis", coup=1), {"R2": "bwff"}, 0],
                      [dict(base, align="dpd1", stable="one"), {"R1": "bwff"}, 1]]
     histories += pair_histories(alphabet)
-    reactions = [("jpsi_ksp_sigma", "helicity"), ("synth:11", "canonical-helicity")] + ([("jpsi_3pi_rho", "helicity"), ("synth:5", "helicity")] if tier == "thorough" else [])
+    reactions = [("jpsi_ksp_sigma", "helicity"), ("synth:11", "canonical-helicity"), ("jpsi_ksp_sigma@orig", "helicity")] + ([("jpsi_3pi_rho", "helicity"), ("synth:5", "helicity")] if tier == "thorough" else [])
     seeds = [None, 0, 12345] + ([1] if tier == "thorough" else [])
 
     hk = [keys_along(h) for h in histories]
